@@ -70,8 +70,21 @@ def install():
 
 def sort_inputs(rng):
     n = int(rng.choice([0, 1, 2, 3, 5, 17, 64, 200, 400], p=[.05, .05, .1, .1, .1, .2, .2, .1, .1]))
-    kind = ["int-ties", "int", "float", "str", "bool-like"][int(rng.integers(0, 5))]
-    if kind == "int-ties":
+    kind = ["int-ties", "int", "float", "str", "bool-like", "typed"][int(rng.integers(0, 6))]
+    if kind == "typed":
+        # arrays of a fixed-width integer or float32 type, using the whole range of the type (ends included)
+        t = str(rng.choice(["u1", "u2", "u4", "u8", "i1", "i2", "i4", "i8", "f4"]))
+        kind = "typed:" + t
+        if t == "f4":
+            v = np.float32(rng.normal(size=n) * 10.0 ** rng.integers(-3, 4)).tolist()
+        else:
+            ii = np.iinfo(t)
+            wide = rng.random() < .6
+            v = [int(x) for x in (rng.integers(ii.min, ii.max, size=n, dtype=t, endpoint=True) if wide else
+                                  rng.integers(max(ii.min, -5), min(ii.max, 40), size=n))]
+            if n > 2 and wide:
+                v[0], v[1] = int(ii.max), int(ii.min)
+    elif kind == "int-ties":
         v = rng.integers(0, max(2, n // 8 + 1), size=n).tolist()
     elif kind == "int":
         v = rng.integers(-10**9, 10**9, size=n).tolist()
@@ -106,10 +119,13 @@ def run_sort(case):
     for rep in range(8):
         v, kind, shape, n = sort_inputs(rng)
         container = ["list", "ndarray"][int(rng.integers(0, 2))] if kind != "str" or rng.random() < .5 else "list"
+        adt = None
+        if kind.startswith("typed:"):
+            container, adt = "ndarray", kind.split(":")[1]
         sig = (kind, shape, min(n, 5) if n < 5 else ("small" if n < 64 else "large"), container)
         wit = {"input": repr(v)[:300], "kind": kind, "shape": shape, "n": n, "container": container}
         # ---- quicksort
-        data = list(v) if container == "list" else np.array(v)
+        data = list(v) if container == "list" else np.array(v, dtype=adt)
         before = list(data.tolist() if container == "ndarray" else data)
         res, e = probe.attempt(algorithm.quicksort, data)
         after = list(data.tolist() if container == "ndarray" else data)
@@ -129,7 +145,7 @@ def run_sort(case):
             vals = ["v%d" % x for x in vals]
         elif vkind == "float":
             vals = [x + 0.5 for x in vals]
-        keys = list(v) if container == "list" else np.array(v)
+        keys = list(v) if container == "list" else np.array(v, dtype=adt)
         dat = list(vals) if (container == "list" or vkind == "str") else np.array(vals)
         kb = list(keys.tolist() if isinstance(keys, np.ndarray) else keys)
         db = list(dat.tolist() if isinstance(dat, np.ndarray) else dat)
